@@ -771,8 +771,9 @@ def units(tier: str, seed: int) -> list[Unit]:
     nsh = 2 if tier == "quick" else 8
     for ci, cfg in enumerate(CONFIGS):
         comp = bool(cfg.get("compress") or cfg.get("write_stall") or cfg.get("heartbeat"))
-        for sh in range(nsh):
-            us.append(Unit(f"exh-{ci}-{sh}", unit_exhaustive, {"cfg": cfg, "length": length + (1 if comp else 0), "shard": sh, "nshards": nsh,
+        nsh_c = nsh * 4 if (comp and tier == "quick") else nsh  # (the longer schedules in more, shorter units)
+        for sh in range(nsh_c):
+            us.append(Unit(f"exh-{ci}-{sh}", unit_exhaustive, {"cfg": cfg, "length": length + (1 if comp else 0), "shard": sh, "nshards": nsh_c,
                                                             "gaps": [-1, 1] if (tier == "thorough" or comp or ci < 4) else [-1]}))
     ns = 1200 if tier == "quick" else 20000
     for i in range(8):
